@@ -30,6 +30,11 @@ ALPH = {
     # state-only updates ("s:<state>") of the same property.  Only the element's value updates may complete it - a
     # vector-level event belongs to no element - although a state may equal the expected value ("Busy") and always
     # differs from the initial one.
+    # "falsy": the awaited / initial value is a falsy one (a countdown reaching 0): typed numbers as an in-process
+    # client holds them
+    ("falsy", "expect"): (2, (1, 0, 3), 0),
+    ("falsy", "initial"): (0, (1, 0, 3), 0),
+    ("falsy", "check"): (2, (0, 1, 3), None),
     ("elem", "expect"): ("X", ("Busy", "N", "s:Busy", "s:Alert"), "Busy"),
     ("elem", "initial"): ("I", ("A", "B", "s:Busy", "s:Alert"), "I"),
     ("elem", "check"): ("X", ("M1", "N", "s:Busy", "s:Alert"), None),
@@ -38,6 +43,8 @@ ALPH = {
 
 def matches(kind, cond, v):
     start, alph, param = ALPH[(kind, cond)]
+    if kind == "falsy":
+        return v == 0 if cond in ("expect", "check") else v != 0
     if kind == "elem":
         if v.startswith("s:"):
             return False
@@ -67,7 +74,7 @@ def event_sets(kind, cond, nmax, grid):
                 state = "Ok"
                 ok = True
                 for v in vals:
-                    if v.startswith("s:"):
+                    if isinstance(v, str) and v.startswith("s:"):
                         # a state-only update must change the state (else it raises no event at all)
                         if v[2:] == state:
                             ok = False
@@ -92,7 +99,7 @@ def wait_kwargs(kind, cond, T, polling):
 
     start, alph, param = ALPH[(kind, cond)]
     kw = dict(device="D", vector="V", timeout=T)
-    if kind == "value":
+    if kind in ("value", "falsy"):
         kw["element"] = "a"
         kw["event_type"] = CE.ValueUpdate
     elif kind == "elem":
@@ -100,7 +107,9 @@ def wait_kwargs(kind, cond, T, polling):
     else:
         kw["event_type"] = CE.StateUpdate
     if cond == "check":
-        if kind in ("value", "elem"):
+        if kind == "falsy":
+            kw["check"] = lambda ev: ev.new_value == 0
+        elif kind in ("value", "elem"):
             kw["check"] = lambda ev: ev.new_value.startswith("M")
         else:
             kw["check"] = lambda ev: ev.new_state in ("Alert", "Busy")
@@ -132,8 +141,11 @@ def execute(p, ch=None):
         kind = p["kind"]
         start = ALPH[(kind, p["cond"])][0]
         st0 = start if kind == "state" else "Ok"
-        v0 = start if kind in ("value", "elem") else "v"
-        client.process_message(M.DefTextVector(device="D", name="V", state=st0, perm="rw", children=[def_parts.DefText(name="a", value=v0)]))
+        v0 = start if kind in ("value", "elem", "falsy") else "v"
+        if kind == "falsy":
+            client.process_message(M.DefNumberVector(device="D", name="V", state=st0 if isinstance(st0, str) else "Ok", perm="rw", children=[def_parts.DefNumber(name="a", format="%d", min=0, max=0, step=0, value=v0)]))
+        else:
+            client.process_message(M.DefTextVector(device="D", name="V", state=st0, perm="rw", children=[def_parts.DefText(name="a", value=v0)]))
         obs["sent"].clear()
         if p.get("raiser"):
             # a listener registered BEFORE the waits whose callback fails on every event: the waits must not notice
@@ -153,7 +165,7 @@ def execute(p, ch=None):
             async def runner(rec=rec, cond=cond, T=T, polling=polling):
                 try:
                     ev = await client.waitforevent(**wait_kwargs(kind, cond, T, polling))
-                    if kind in ("value", "elem"):
+                    if kind in ("value", "elem", "falsy"):
                         rec["done"] = ("event", getattr(ev, "old_value", "?"), getattr(ev, "new_value", "?"), loop.time())
                     else:
                         rec["done"] = ("event", getattr(ev, "old_state", "?"), getattr(ev, "new_state", "?"), loop.time())
@@ -163,6 +175,8 @@ def execute(p, ch=None):
             loop.create_task(runner())
 
         def mk(v):
+            if kind == "falsy":
+                return M.SetNumberVector(device="D", name="V", state="Ok", children=[one_parts.OneNumber(name="a", value=v)])
             if v.startswith("s:"):
                 return M.SetTextVector(device="D", name="V", state=v[2:])
             if kind in ("value", "elem"):
@@ -216,7 +230,7 @@ def expected(kind, cond, T, events):
         if matches(kind, cond, v):
             first = (t, prev, v)
             break
-        if not v.startswith("s:"):
+        if not (isinstance(v, str) and v.startswith("s:")):
             prev = v
     if T is not None and T > 0:
         if first is not None and first[0] < T:
@@ -311,15 +325,15 @@ def judge(p, obs):
 
 def shards(tier, seed):
     sh = []
-    for kind in ("value", "state", "elem"):
+    for kind in ("value", "state", "elem", "falsy"):
         for cond in CONDS:
             for T in timeouts():
-                if kind == "elem" and T in (0, 1, 3):
+                if kind in ("elem", "falsy") and T in (0, 1, 3):
                     continue
                 sh.append((tier, "grid", kind, cond, T))
-    for kind in ("value", "state", "elem"):
+    for kind in ("value", "state", "elem", "falsy"):
         for cond in CONDS:
-            if kind != "elem":
+            if kind not in ("elem", "falsy"):
                 sh.append((tier, "dev", kind, cond))
             sh.append((tier, "two", kind, cond))
     return sh
